@@ -129,6 +129,28 @@ def oblig(ctx, m):
         jobs.append(('C08:L4:value-close-to-maintained-sum:F(5,11)', build(5, 11, ['s', 'c'], {'v': vr[0].value[1]}, vr[0].pc, L4), 300, 'C08:L4'))
     else:
         m.stuck('C08:L4', 'KahanSum::value paths')
+    # L3: merging two registers (each with a rounding-level compensation): the maintained quantity of the result is the sum of the
+    # maintained quantities up to 4u * the SMALLER operand (+ 4 * the compensations, which enter at full size) - on every path of the merge.
+    # A first-order defect in the LARGER operand would let a chain of merges accumulate O(n u) error.
+    fm = [f for f in m.fns if f.short == 'add_assign' and 'utils' in f.name and len(f.args) == 2 and 'KahanSum' in f.args[1][1]]
+    if len(fm) == 1:
+        ref, extra = E.self_ref(E.kahan('s', 'c'))
+        mres = m.run(fm[0], [ref, E.kahan('rs', 'rc')], extra)
+        if any(r.kind == 'stuck' for r in mres):
+            m.stuck('C08:L3', [r for r in mres if r.kind == 'stuck'][0].value[1])
+        eb, sb = 3, 4
+        for i, r in enumerate([r for r in mres if r.kind == 'return']):
+            st_ = r.store['_self']
+            S_, C_ = st_[3][0][1], st_[3][1][1]
+            pre = '(assert (bvsle (bvshl %s (_ bv%d 64)) (bvmul (_ bv2 64) %s)))\n(assert (bvsle (bvshl %s (_ bv%d 64)) (bvmul (_ bv2 64) %s)))' % (ABS('c_fx'), sb, ABS('s_fx'), ABS('rc_fx'), sb, ABS('rs_fx'))
+            d = '(bvsub (bvsub (bvsub S_fx C_fx) (bvsub s_fx c_fx)) (bvsub rs_fx rc_fx))'
+            mn = '(ite (bvsle %s %s) %s %s)' % (ABS('s_fx'), ABS('rs_fx'), ABS('s_fx'), ABS('rs_fx'))
+            body = pre + '\n(assert (not (bvsle (bvshl %s (_ bv%d 64)) (bvadd (bvmul (_ bv4 64) %s) (bvshl (bvmul (_ bv4 64) (bvadd %s %s)) (_ bv%d 64))))))' % (ABS(d), sb, mn, ABS('c_fx'), ABS('rc_fx'), sb)
+            for cu in itertools.product(range(2 ** eb - 1), repeat=2):
+                jobs.append(('C08:L3:merge-defect-first-order-in-the-smaller-operand:F(3,4)' + ('' if i == 0 else ':path%d' % i),
+                             build(eb, sb, ['s', 'c', 'rs', 'rc'], {'S': S_, 'C': C_}, r.pc, body, cube=dict(zip(['s', 'rs'], cu))), 180, 'C08:L3'))
+    else:
+        m.stuck('C08:L3', 'AddAssign<KahanSum> not found')
     # discrimination witness: naive summation (t = sum + x, no compensation) must violate L2's analogue |t - s - x| <= 2u|x| ... it does not hold:
     naive_t = T.mk('fadd', s, x)
     dn = '(bvsub (bvsub t_fx s_fx) x_fx)'
@@ -193,20 +215,24 @@ def reg_ident(ctx, m, paths):
         ref, extra = E.self_ref(E.kahan('s', 'c'))
         arg = E.kahan('rs', 'rc') if is_reg else ('f', x)
         rs = [r for r in m.run(f, [ref, arg], extra) if r.kind == 'return']
-        if len(rs) != 1:
+        if not rs:
             m.stuck('C08:register:add_assign', 'paths')
             continue
-        got = reg(rs[0].store['_self'])
         if is_reg:
             s1, c1 = kah(s, c, T.var('rs'))
-            want = kah(s1, c1, T.var('rc'))
+            fwd = kah(s1, c1, T.var('rc'))
+            s2, c2_ = kah(T.var('rs'), T.var('rc'), s)
+            bwd = kah(s2, c2_, c)
             nm = 'C08:register:merge-is-two-kahan_adds'
+            good = all(reg(r.store['_self']) in (fwd, bwd) for r in rs)
         else:
             want = kah(s, c, x)
             nm = 'C08:register:add-assign-value-is-kahan_add'
-            results['addassign'] = got
-        if got == want:
-            ctx.record(nm, 'M', 'held', bound='syntactic', sample={'obligation': nm, 'verdict': 'same DAG'})
+            good = len(rs) == 1 and reg(rs[0].store['_self']) == want
+            if good:
+                results['addassign'] = want
+        if good:
+            ctx.record(nm, 'M', 'held', bound='syntactic', sample={'obligation': nm, 'paths': len(rs), 'verdict': 'same DAG'})
         else:
             m.violated_structurally(nm, nm, 'register update is not the compensated addition', replay=lambda model, p, nm=nm: native_battery(ctx, nm))
     # by-value `+`
@@ -235,7 +261,7 @@ def native_battery(ctx, what):
     import struct
     drv = native.Driver.get(ctx)
     f32 = lambda v: struct.unpack('<f', struct.pack('<f', v))[0]
-    cases = [('f32', 'addassign', 1.0, 5e-8, 2000000), ('f32', 'addassign', 0.0, 0.1, 1000000), ('f32', 'plus', 0.0, 0.1, 1000000), ('f32', 'merge7', 0.0, 0.1, 1050000),
+    cases = [('f32', 'rmerge3', 0.0, 1.1, 600000), ('f32', 'addassign', 1.0, 5e-8, 2000000), ('f32', 'addassign', 0.0, 0.1, 1000000), ('f32', 'plus', 0.0, 0.1, 1000000), ('f32', 'merge7', 0.0, 0.1, 1050000),
              ('f64', 'addassign', 1.0, 1e-17, 1000000), ('f32', 'addassign', 0.0, -0.3, 500000)]
     for ty, mode, x0, xv, cnt in cases:
         a0, a = (f32(x0), f32(xv)) if ty == 'f32' else (x0, xv)
